@@ -19,6 +19,8 @@ use std::sync::Arc;
 
 #[path = "c02sched.rs"]
 mod sched;
+#[path = "c02conn.rs"]
+mod conn;
 
 /// how long all clients of one sampled case may take (normally milliseconds)
 const CASE_DEADLINE: std::time::Duration = std::time::Duration::from_secs(45);
@@ -1089,6 +1091,14 @@ pub fn run(a: &Args) {
         }
         // multi-call scripts on two keys of one shard: the whole script is one atomic step
         guarded!("transfer", transfer_case(&mut out, &mut Rng::new(0x5C21), fixed, true));
+        // through the REAL connection handler (fast path, batch collectors, generic path): six fixed plans
+        for i in 0..6usize {
+            guarded!("conn", conn::conn_case(&mut out, &mut Rng::new(0xC0AA + i as u64), fixed, Some(i)));
+        }
+        // the script cache (node-global) across SCRIPT FLUSH, every shard
+        for i in 0..3usize {
+            guarded!("script-cache", conn::script_cache_case(&mut out, &mut Rng::new(0x5CF + i as u64), fixed, Some(i)));
+        }
         // cancellations: the fixed case first, then a few random ones
         guarded!("cancel", cancel_case(&mut out, &mut Rng::new(0xC02), fixed, true));
         for i in 0..a.n {
@@ -1100,6 +1110,12 @@ pub fn run(a: &Args) {
             }
             if i % 400 == 7 {
                 guarded!("transfer", transfer_case(&mut out, &mut r, fixed, false));
+            }
+            if i % 10 == 1 {
+                guarded!("conn", conn::conn_case(&mut out, &mut r, fixed, None));
+            }
+            if i % 14 == 5 {
+                guarded!("script-cache", conn::script_cache_case(&mut out, &mut r, fixed, None));
             }
             if i % 8 == 3 {
                 let c = timed_random(&mut r);
